@@ -351,32 +351,16 @@ func (c *Ctx) reachableFromNoBack(fn *ssa.Function, from ssa.Instruction, target
 
 // ruleConcatSplit: splitShortConcatArg cuts after the first rune's encoded width.
 func (c *Ctx) ruleConcatSplit(r *Report, rule string) {
-	ssc := c.mustFn(r, "(*Parser).splitShortConcatArg")
-	if ssc == nil {
+	ps := c.mustFn(r, "(*Parser).parseShort")
+	if ps == nil {
 		return
 	}
-	n := 0
-	for _, ret := range returnsOf(ssc) {
-		t0 := c.term(ret.Results[0])
-		if t0 == "P2" {
-			continue
-		}
-		n++
-		okF := t0 == "conv[string](call:unicode/utf8.DecodeRuneInString(P2)#0)"
-		okA := false
-		if al, ok := ret.Results[1].(*ssa.Alloc); ok {
-			stores, _ := c.cellStores(al)
-			for _, st := range stores {
-				if c.term(st.Val) == "slice(P2, call:unicode/utf8.DecodeRuneInString(P2)#1, _)" {
-					okA = true
-				}
-			}
-		}
-		r.Check(okF && okA, rule, c.fname(ssc), "attached argument starts after the first rune", c.ipos(ret), "first = string(rune), argument = optname[width:]", fmt.Sprintf("first=%s argument-by-width=%v", trunc(t0, 60), okA))
+	cs := c.concatSplit(ps)
+	if cs.split == nil {
+		r.Fail(rule, c.fname(ps), "attached argument split", c.pos(ps.Pos()), cs.why)
+		return
 	}
-	if n == 0 {
-		r.Fail(rule, c.fname(ssc), "attached argument split", "", "no splitting return found")
-	}
+	r.Check(len(cs.otherSlices) == 0, rule, c.fname(ps), "attached argument starts after the first rune", c.ipos(cs.split), "first = string(rune), argument = optname[width:]", "the attached argument is also cut at "+strings.Join(cs.otherSlices, ", "))
 }
 
 // setupFn: fn is one of the declaration-scan functions or a new helper extracted from them.
